@@ -20,5 +20,7 @@ def run(repo: Repo, tier, rep: Report):
     rep.floor("typed sinks (node_link)", n, 2)
     from sa.jsonreader import check_node_link_graph
     check_node_link_graph(repo, rep)
+    from sa.query_check import check_enumeration_dependency
+    check_enumeration_dependency(repo, rep, common.enumeration_users(repo, ['node_link_data']))
     rep.assume(*common.CTOR_ASSUMPTIONS)
     rep.assume("JSON-serialisability of ids/attributes is a property of the user's values, not of the code")
